@@ -150,7 +150,7 @@ def map_failures(g, res):
                             oid = f'{g.unit}::{fi.name}::{sect.replace(" ", "")}:post:{lab[1]}'
                         else:
                             oid = f'{g.unit}::{fi.name}::post:{lab[1]}'
-                if oid is None and (clause[0] == 0 or (getattr(fi, 'traitpost', False) and g.origin[clause[0] - 1][0] == 'tmpl')):
+                if oid is None and (clause[0] == 0 or (getattr(fi, 'traitpost', False) and (g.origin[clause[0] - 1][0] == 'tmpl' or cfi is not fi))):
                     oid = f'{g.unit}::{fi.name}::post:trait'
                 if oid is None and 'canary__' in (g.lines[clause[0] - 1] if clause else ''):
                     oid = f'{g.unit}::{fi.name}::canary'
